@@ -144,8 +144,9 @@ def c12_check(res, known, args):
     if cov is None:
         return
     n = sum(r["compared"] for r in cov["runs"])
-    res.coverage.update({"programs": n, "evaluations": n, "distinct_nontrivial": n, "visitor_runs": cov["runs"],
-                         "rule": "texts: texts.py programs and fault injections, well-formed programs of vprogs.py and ONE fault of each C12 class at EVERY site of them; "
+    nf = sum((r.get("C12") or {}).get("faults", 0) for r in cov["runs"])
+    res.coverage.update({"programs": n, "evaluations": n, "distinct_nontrivial": nf, "visitor_runs": cov["runs"],
+                         "rule": "evaluations = parsed texts given to the model and compared; distinct_nontrivial = (fault class, line) pairs the specification `faults` found in them and that were compared with the real diagnostics; texts: texts.py programs and fault injections, well-formed programs of vprogs.py and ONE fault of each C12 class at EVERY site of them; "
                                  "the real parse tree is visited by the model; compared: outcome, full model dump, diagnostics (line, site, message); "
                                  "`faults` (the specification, coq/Model/Faults.v) is compared with the real diagnostics (class and line); a sample also goes through the real CLI "
                                  "(exit status, diagnostics, no file written)"})
@@ -158,8 +159,10 @@ def c08_check(res, known, args):
     if cov is None:
         return
     n = sum((r.get("C08") or {}).get("pairs", 0) for r in cov["runs"])
-    res.coverage.update({"programs": n, "evaluations": n, "distinct_nontrivial": n, "visitor_runs": cov["runs"],
-                         "rule": "well-formed programs x the spelling rewrites of coq/Model/Spelling.v (functions on parse trees, mirrored on the text): the rewritten text must be the "
+    nkinds = len(set(k for r in cov["runs"] for k in (r.get("C08") or {}) if k.startswith("pairs:")))
+    loc = sum((r.get("locality") or {}).get("checked", 0) for r in cov["runs"])
+    res.coverage.update({"programs": n, "evaluations": n + loc, "distinct_nontrivial": n, "rewrite_kinds": nkinds, "attribute_removals": loc, "visitor_runs": cov["runs"],
+                         "rule": "evaluations = (program, rewrite) pairs whose rewrite CHANGED the text (no-ops are not counted) + attribute removals; distinct_nontrivial = the pairs; well-formed programs x the spelling rewrites of coq/Model/Spelling.v (functions on parse trees, mirrored on the text): the rewritten text must be the "
                                  "model's rewritten tree, `same_meaning` is evaluated by the model, and the six generators' outputs of the REAL compiler for both texts must be byte-identical; "
                                  "attribute locality: removing one attribute may change only the field it was written on (real model dumps compared field by field)"})
 
@@ -252,7 +255,9 @@ def c09_check(res, known, args):
     if cov is None:
         return
     n = sum(r["texts"] for r in cov["runs"])
-    res.coverage.update({"inputs": n, "evaluations": n, "distinct_nontrivial": n, "fmt_runs": cov["runs"], "rule": FMT_RULE})
+    nv = sum((r.get("stats") or {}).get("valid", 0) for r in cov["runs"])
+    res.coverage.update({"inputs": n, "evaluations": n, "distinct_nontrivial": nv, "fmt_runs": cov["runs"],
+                         "rule": "evaluations = distinct texts (deduplicated) formatted by model and code; distinct_nontrivial = those the formatter accepts, on which the content/compile oracles ran; " + FMT_RULE})
 
 
 @handler("C10")
@@ -261,7 +266,9 @@ def c10_check(res, known, args):
     if cov is None:
         return
     n = sum(r["texts"] for r in cov["runs"])
-    res.coverage.update({"inputs": n, "evaluations": n, "distinct_nontrivial": n, "fmt_runs": cov["runs"], "rule": FMT_RULE})
+    nr = sum((r.get("stats") or {}).get("relayouts", 0) for r in cov["runs"])
+    res.coverage.update({"inputs": n, "evaluations": n + nr, "distinct_nontrivial": nr, "fmt_runs": cov["runs"],
+                         "rule": "evaluations = distinct texts + their re-layouts; distinct_nontrivial = re-layouts compared with the original's format (each accepted text is also formatted twice); " + FMT_RULE})
 
 
 # ----------------------------------------------------------------------------------------
@@ -306,9 +313,9 @@ def c11_check(res, known, args):
             pass
         res.violation({"kind": "crash", "what": "the compile path crashes at a site that is not a recorded finding: %s" % cls, "class": cls,
                        "panic": es[0].get("panic"), "dsl": w}, found=True)
-    res.coverage.update({"inputs": len(tx), "evaluations": len(tx), "distinct_nontrivial": len(tx), "crash_scan": dict(st),
+    res.coverage.update({"inputs": len(tx), "evaluations": len(tx), "distinct_nontrivial": len(set(t for _, t in tx)) - st.get("syntax error", 0), "crash_scan": dict(st),
                          "crash_classes": {c: len(v) for c, v in classes.items()}, "fmt_runs": fcov["runs"], "visitor_runs": vcov["runs"],
-                         "rule": "formatter: model = real on every text, the model is proved never to panic (C11_format_never_panics); visitor: model = real (outcome kind and "
+                         "rule": "evaluations = texts of the crash scan; distinct_nontrivial = distinct texts that pass the parser (reach the visitor / generators); formatter: model = real on every text, the model is proved never to panic (C11_format_never_panics); visitor: model = real (outcome kind and "
                                  "panicking function), `nopanic_frag` proved sufficient for a result and evaluated on every tree; generators: every text of texts.py (valid, faulty, "
                                  "junk, truncated, binary) through parse, visit and the six generators in the hook; recovered panics classified by stage|language|innermost function, "
                                  "fatal crashes by the hook dying; deep nesting probe through the real CLI"})
@@ -374,10 +381,11 @@ def c17_check(res, known, args):
         return
     rep, cached = r
     res.coverage.update({"programs": rep.get("programs"), "evaluations": sum(rep.get("counts", {}).values()),
-                         "distinct_nontrivial": sum(v for k, v in rep.get("counts", {}).items() if "Pass" in k), "verdict_counts": rep.get("counts"),
+                         "distinct_nontrivial": len(set(k for k, V in (rep.get("verdicts") or {}).items() if V.get("verdict") not in ("GeneratorPanic", "GeneratorRefuses", None) and not str(V.get("verdict")).startswith("NotEvaluated"))),
+                         "verdict_counts": rep.get("counts"),
                          "interpreter_selftest": rep.get("interpreter_selftest"), "samples": rep.get("samples"), "cached": cached,
                          "units_proved_to_pass_by_theorem": rep.get("proved_units"),
-                         "rule": "every emitted test (Go, Rust, Java, Python, C++) is read by a strict scaffold interpreter (harness/extract_tests.py): the sample object, the "
+                         "rule": "evaluations = test units (program x language x packet); distinct_nontrivial = distinct units for which a test was emitted and judged; every emitted test (Go, Rust, Java, Python, C++) is read by a strict scaffold interpreter (harness/extract_tests.py): the sample object, the "
                                  "compared members, the copy-back statements; build problems (names, types, redeclarations, imports) are derived from the emitted text; the test is "
                                  "then RUN by the self-test model (coq/Tests/SelfTest.v: encode with store-backs, decode, compare) over the IR extracted from the same compilation"})
     res.assumptions += ["the target toolchains and test runners are absent: 'builds' is decided by the scaffold interpreter (agrees with javac/g++ on every program where those reach the test)",
